@@ -98,7 +98,7 @@ func TestVerif_C20_upload(t *testing.T) {
 	dir := t.TempDir()
 	type pend struct {
 		line, legacy, impl, human string
-		ok, nontrivial           bool
+		ok, nontrivial            bool
 	}
 	var pending []pend
 	for _, h2 := range []bool{false, true} {
